@@ -486,7 +486,7 @@ theorem Stream.graph_clean (exc : PyErr) (s : Stream) (g : Term) (ts : List (Lis
     (hs : ∀ x ∈ s.flow.rows, x.NotNs) :
     CleanRows (s.graph exc g ts).2.1 (s.graph exc g ts).1.flow := by
   rw [Stream.graph_eq]
-  rcases hg : s.enc.te.graph g with ⟨te', e | ⟨rows, w⟩⟩
+  rcases hg : s.enc.te.startRow.graph g with ⟨te', e | ⟨rows, w⟩⟩
   · simpa [CleanRows] using hs
   · dsimp only
     have h0 : CleanRows [] (({ s with enc := { s.enc with te := te' } } : Stream).pushRows
